@@ -271,7 +271,7 @@ def run_case(case):
                 break
 
     # ---------------------------------------------------------------- (f) estimateZ0
-    nobs = 64
+    nobs = int(rng.choice([64, 720]))  # sparse, and dense enough to populate every 1-degree bin
     zmv = np.full(nobs, zm)
     usv = rng.uniform(0.1, 1.0, nobs)
     Lv = np.where(rng.random(nobs) < 0.5, -1, 1) * 10 ** rng.uniform(1.2, 4, nobs)
@@ -289,9 +289,9 @@ def run_case(case):
         resid["z0_inversion_rel"] = e
         if e > 1e-10 or np.isnan(zraw[good]).any():
             viol.append({"what": "estimateZ0_does_not_invert_log_law", "rel": e})
-        win = float(rng.choice([22, 5, 1, 45]))
+        win = float(rng.choice([22, 22, 5, 1, 45, 22.5, 10]))
         zs = KM.estimateZ0(zmv, wsv, wdv, usv, Lv, half_wd_win=win)
-        for rot in (int(rng.integers(1, 360)), 90, 271):
+        for rot in (int(rng.integers(1, 360)), 90, 271, 10, 180, 338):
             zr = KM.estimateZ0(zmv, wsv, (wdv + rot) % 360.0, usv, Lv, half_wd_win=win)
             counters["z0_calls"] += 1
             if not np.array_equal(zs, zr, equal_nan=True):
